@@ -20,6 +20,7 @@ RULE = ('Full sessions over synthetic markets with start in {00:00, 09:00, 14:30
 RULE += " The instants given to broker.update (consecutive duplicates removed) must be exactly the clock of (start, end). Each recorded allocation row must carry the alpha model's weight for every asset it named and 0.0 for every other universe member or held asset. 15% two-source sessions, 35% default-data-handler sessions as in C08."
 RULE += ' A portfolio construction that records no allocation row is a violation. 40% of the sessions mix UTC spellings between start and end.'
 RULE += " Sessions take portfolio_id from {default, 'master', 'p-1'}; the 'switch' alpha is among the alpha kinds."
+RULE += " Equity curve reworked by the caller and read again, caller's weights unchanged (as C08); a quarter of the dynamic universes are a user-defined Universe subclass."
 ASSUMPTIONS = ['at least one close after burn-in (an empty equity curve is outside the quantifier)',
                'start time-of-day 00:00-14:30, end 23:59 as documented']
 ALPHAS = ('fixed', 'single', 'topn_mom', 'sma_trend', 'inv_vol', 'mom_sign', 'switch')
